@@ -22,15 +22,15 @@ import (
 type akind int
 
 const (
-	aUnknown akind = iota
-	aTag           // interface value with known dynamic type (Tag == nil: the nil interface)
-	aConst         // constant
-	aRType         // reflect.Type of a known type
-	aRKind         // reflect.Kind of a known type
-	aGlobal        // a package-level variable's value (maps with known literal contents)
-	aConcrete      // some non-nil value of a concrete type (result of a successful type assertion)
-	aFunc          // a known function value (entry of a package-level dispatch table)
-	aSlot          // address of element Idx of the package-level table G
+	aUnknown  akind = iota
+	aTag            // interface value with known dynamic type (Tag == nil: the nil interface)
+	aConst          // constant
+	aRType          // reflect.Type of a known type
+	aRKind          // reflect.Kind of a known type
+	aGlobal         // a package-level variable's value (maps with known literal contents)
+	aConcrete       // some non-nil value of a concrete type (result of a successful type assertion)
+	aFunc           // a known function value (entry of a package-level dispatch table)
+	aSlot           // address of element Idx of the package-level table G
 )
 
 type aval struct {
@@ -77,8 +77,8 @@ type outcome struct {
 }
 
 type tagEval struct {
-	c       *Ctx
-	steps   int
+	c     *Ctx
+	steps int
 	// hooks inject abstract results for calls / loads the rule wants to range over
 	callHook func(call *ssa.Call) ([]aval, bool)
 	loadHook func(load *ssa.UnOp) (aval, bool)
@@ -88,8 +88,8 @@ type tagEval struct {
 	loadHookEnv func(load *ssa.UnOp, val func(ssa.Value) aval) (aval, bool)
 	storeObs    func(st *ssa.Store, v aval, val func(ssa.Value) aval)
 	binopHook   func(bo *ssa.BinOp) (aval, bool)
-	globals map[*ssa.Global]map[string]constant.Value // string-keyed constant maps built in init
-	tables  map[*ssa.Global]map[int64]*ssa.Function   // package-level arrays/maps of functions, by constant index
+	globals     map[*ssa.Global]map[string]constant.Value // string-keyed constant maps built in init
+	tables      map[*ssa.Global]map[int64]*ssa.Function   // package-level arrays/maps of functions, by constant index
 }
 
 func (c *Ctx) newTagEval() *tagEval {
